@@ -314,7 +314,10 @@ fn ser_children(
                 is_block_node(&nodes[i - 1])
             };
             if prev_block && is_block_node(n) {
-                if hollow {
+                // (attribution mode: also no gap next to a block sibling that renders nothing)
+                let hollow_neighbour = fmt.no_gap_in_empty
+                    && (!has_renderable(std::slice::from_ref(n)) || (i > 0 && !has_renderable(std::slice::from_ref(&nodes[i - 1]))));
+                if hollow || hollow_neighbour {
                     let mut scratch = String::new();
                     emit_gap(fmt, &mut scratch, depth);
                 } else {
@@ -352,7 +355,8 @@ fn ser_children(
         i += 1;
     }
     if gaps_ok && all_block && !prev_open {
-        if hollow {
+        let hollow_last = fmt.no_gap_in_empty && nodes.last().map(|n| !has_renderable(std::slice::from_ref(n))).unwrap_or(false);
+        if hollow || hollow_last {
             let mut scratch = String::new();
             emit_gap(fmt, &mut scratch, depth.saturating_sub(1));
         } else {
